@@ -868,3 +868,43 @@ mod tests {
         );
     }
 }
+
+#[cfg(kahflane_turdb_verif)]
+pub fn verif_fn_date_to_days(year: i64, month: u32, day: u32) -> i64 {
+    date_to_days(year, month, day)
+}
+
+#[cfg(kahflane_turdb_verif)]
+pub fn verif_fn_days_to_date(days: i64) -> (i64, u32, u32) {
+    days_to_date(days)
+}
+
+#[cfg(kahflane_turdb_verif)]
+pub fn verif_fn_day_of_week(year: i64, month: u32, day: u32) -> u32 {
+    day_of_week(year, month, day)
+}
+
+#[cfg(kahflane_turdb_verif)]
+pub fn verif_fn_day_of_year(year: i64, month: u32, day: u32) -> u32 {
+    day_of_year(year, month, day)
+}
+
+#[cfg(kahflane_turdb_verif)]
+pub fn verif_fn_days_in_month(year: i64, month: u32) -> u32 {
+    days_in_month(year, month)
+}
+
+#[cfg(kahflane_turdb_verif)]
+pub fn verif_fn_parse_date(s: &str) -> Option<(i64, u32, u32)> {
+    parse_date(s)
+}
+
+#[cfg(kahflane_turdb_verif)]
+pub fn verif_fn_parse_time(s: &str) -> Option<(u32, u32, u32)> {
+    parse_time(s)
+}
+
+#[cfg(kahflane_turdb_verif)]
+pub fn verif_fn_format_unix_timestamp(secs: i64) -> String {
+    format_unix_timestamp(secs)
+}
